@@ -26,7 +26,24 @@ import (
 // through Get must equal the value an operation-level model (no use of the library's Merge)
 // assigns to the set of updates: sum of increments, add-wins observed-remove sets, etc.
 
-var c39bTypes = []string{"gcounter", "pncounter", "flag", "lww", "orset", "mvreg", "ormap"}
+// lww-mono and orset-own are regimes of lww / orset that stay clear of two library defects found on
+// the unchanged tree (see selftest/C39b.md), so that the replicator paths of these two types
+// keep a clean baseline: lww-mono = timestamps increase in real-time order over all replicas
+// (no local Set below an already merged timestamp); orset-own = replica i only ever adds its
+// own element e<i> (any replica removes any element), so a delta's clock never claims dots of
+// other elements.
+var c39bTypes = []string{"gcounter", "pncounter", "flag", "lww", "lww-mono", "orset", "orset-own", "mvreg", "ormap"}
+
+// c39bBase maps a regime to the CRDT type it runs on.
+func c39bBase(typ string) string {
+	switch typ {
+	case "lww-mono":
+		return "lww"
+	case "orset-own":
+		return "orset"
+	}
+	return typ
+}
 var c39bModes = []string{"causal", "fifo", "any"}
 var c39bAEs = []string{"none", "none", "mixed", "only"}
 var c39bElems = []string{"a", "b", "c"}
@@ -89,7 +106,7 @@ type c39bCase struct {
 func c39bBit(i int) uint64 { return 1 << uint(i) }
 
 func c39bKeyFor(typ, id string) crdt.Key {
-	switch typ {
+	switch c39bBase(typ) {
 	case "gcounter":
 		return crdt.GCounterKey(id)
 	case "pncounter":
@@ -109,7 +126,7 @@ func c39bKeyFor(typ, id string) crdt.Key {
 }
 
 func c39bInitial(typ string) crdt.ReplicatedData {
-	switch typ {
+	switch c39bBase(typ) {
 	case "gcounter":
 		return crdt.NewGCounter()
 	case "pncounter":
@@ -131,7 +148,7 @@ func c39bInitial(typ string) crdt.ReplicatedData {
 // fullClone says whether the type's Delta() is a copy of the whole state (so a delta carries
 // everything its origin had seen) or only the change of the update itself.
 func c39bFullClone(typ string) bool {
-	switch typ {
+	switch c39bBase(typ) {
 	case "flag", "lww", "mvreg", "ormap":
 		return true
 	}
@@ -146,7 +163,7 @@ func (k *c39bCase) doOp() {
 	node := fmt.Sprintf("n%d", i)
 	op := &c39bOp{ID: len(k.ops), Rep: i, Msg: -1}
 	var modify func(cur crdt.ReplicatedData) crdt.ReplicatedData
-	switch k.spec.Typ {
+	switch c39bBase(k.spec.Typ) {
 	case "gcounter":
 		op.Kind, op.Amt = "inc", uint64(1+k.rng.Intn(5))
 		amt := op.Amt
@@ -176,6 +193,9 @@ func (k *c39bCase) doOp() {
 			}
 		}
 		op.TS = (1_000_000+10*int64(op.ID)+k.skew[i])*4 + int64(i)
+		if k.spec.Typ == "lww-mono" {
+			op.TS = (1_000_000+10*int64(op.ID))*4 + int64(i)
+		}
 		op.Val = fmt.Sprintf("v%d", op.ID)
 		val, ts := op.Val, op.TS
 		modify = func(cur crdt.ReplicatedData) crdt.ReplicatedData {
@@ -185,6 +205,12 @@ func (k *c39bCase) doOp() {
 		op.Kind, op.Elem = "add", c39bElems[k.rng.Intn(len(c39bElems))]
 		if k.rng.Intn(3) == 0 {
 			op.Kind = "rem"
+		}
+		if k.spec.Typ == "orset-own" {
+			op.Elem = fmt.Sprintf("e%d", k.rng.Intn(k.spec.N))
+			if op.Kind == "add" {
+				op.Elem = fmt.Sprintf("e%d", i)
+			}
 		}
 		elem := op.Elem
 		if op.Kind == "rem" {
@@ -454,7 +480,7 @@ func (k *c39bCase) expected() map[string]string {
 	for _, o := range k.ops {
 		covered |= o.Covers
 	}
-	switch k.spec.Typ {
+	switch c39bBase(k.spec.Typ) {
 	case "gcounter", "pncounter":
 		inc, dec := map[string]uint64{}, map[string]uint64{}
 		for _, o := range k.ops {
@@ -550,23 +576,23 @@ func (k *c39bCase) observe(d crdt.ReplicatedData, exp map[string]string) (map[st
 	}
 	switch v := d.(type) {
 	case *crdt.GCounter:
-		if k.spec.Typ != "gcounter" {
+		if c39bBase(k.spec.Typ) != "gcounter" {
 			return nil, fmt.Sprintf("%T", d)
 		}
 		out["inc"] = c39bSlots(v.State())
 	case *crdt.PNCounter:
-		if k.spec.Typ != "pncounter" {
+		if c39bBase(k.spec.Typ) != "pncounter" {
 			return nil, fmt.Sprintf("%T", d)
 		}
 		inc, dec := v.State()
 		out["inc"], out["dec"] = c39bSlots(inc), c39bSlots(dec)
 	case *crdt.Flag:
-		if k.spec.Typ != "flag" {
+		if c39bBase(k.spec.Typ) != "flag" {
 			return nil, fmt.Sprintf("%T", d)
 		}
 		out["enabled"] = fmt.Sprint(v.Enabled())
 	case *crdt.LWWRegister:
-		if k.spec.Typ != "lww" {
+		if c39bBase(k.spec.Typ) != "lww" {
 			return nil, fmt.Sprintf("%T", d)
 		}
 		if v.Value() == nil && v.Timestamp() == 0 {
@@ -575,7 +601,7 @@ func (k *c39bCase) observe(d crdt.ReplicatedData, exp map[string]string) (map[st
 			out["value"] = fmt.Sprintf("%v@%d/%s", v.Value(), v.Timestamp(), v.NodeID())
 		}
 	case *crdt.ORSet:
-		if k.spec.Typ != "orset" {
+		if c39bBase(k.spec.Typ) != "orset" {
 			return nil, fmt.Sprintf("%T", d)
 		}
 		set := map[string]bool{}
@@ -584,7 +610,7 @@ func (k *c39bCase) observe(d crdt.ReplicatedData, exp map[string]string) (map[st
 		}
 		out["elements"] = c39bSet(set)
 	case *crdt.MVRegister:
-		if k.spec.Typ != "mvreg" {
+		if c39bBase(k.spec.Typ) != "mvreg" {
 			return nil, fmt.Sprintf("%T", d)
 		}
 		set := map[string]bool{}
@@ -593,7 +619,7 @@ func (k *c39bCase) observe(d crdt.ReplicatedData, exp map[string]string) (map[st
 		}
 		out["values"] = c39bSet(set)
 	case *crdt.ORMap:
-		if k.spec.Typ != "ormap" {
+		if c39bBase(k.spec.Typ) != "ormap" {
 			return nil, fmt.Sprintf("%T", d)
 		}
 		set := map[string]bool{}
@@ -754,12 +780,12 @@ func c39bRunCase(t *testing.T, r *verifrt.Run, w *c39bWorld, spec c39bSpec, seed
 func TestVerif_C39b(t *testing.T) {
 	r := verifrt.Start(t, "C39b")
 	defer r.Finish()
-	r.Rule("case = (CRDT type of 7, 2-3 real replicatorActors, delivery discipline causal/per-origin-FIFO/arbitrary, anti-entropy none/mixed-with-lost-deltas/only, 1-3 rounds of 2-8 generated local updates) with captured deltas delivered re-encoded via CRDTDelta / *crdtDelta / CRDTDeltaBatch, duplicates, echoes to the origin and digest->full-state pulls; at every point where the harness knows all replicas received all updates, each replica's Get value is compared with an operation-level model (sums, add-wins observed-remove by visibility sets, LWW by timestamp); non-trivial = >=3 updates from >=2 origins and at least one duplicate, per-origin reordering, cross-origin non-causal delivery or full-state transfer happened; distinct by script text")
+	r.Rule("case = (CRDT type of 7 plus the regimes lww-mono / orset-own, 2-3 real replicatorActors, delivery discipline causal/per-origin-FIFO/arbitrary, anti-entropy none/mixed-with-lost-deltas/only, 1-3 rounds of 2-8 generated local updates) with captured deltas delivered re-encoded via CRDTDelta / *crdtDelta / CRDTDeltaBatch, duplicates, echoes to the origin and digest->full-state pulls; at every point where the harness knows all replicas received all updates, each replica's Get value is compared with an operation-level model (sums, add-wins observed-remove by visibility sets, LWW by timestamp); non-trivial = >=3 updates from >=2 origins and at least one duplicate, per-origin reordering, cross-origin non-causal delivery or full-state transfer happened; distinct by script text")
 	r.Assume("mailbox FIFO between one sender's Tell and its following Ask (round trip used as handling confirmation); the harness is the only client, so every step is sequential")
 	w := c39bNewWorld(t)
 	defer w.close()
 	rng := r.Rand(1)
-	n := r.N(1200, 40000)
+	n := r.N(1400, 100000)
 	for i := 0; i < n; i++ {
 		spec := c39bSpec{
 			Typ:    c39bTypes[rng.Intn(len(c39bTypes))],
